@@ -21,7 +21,7 @@ open Basyx
 
 inductive PyExc where
   | keyError | valueError | typeError | indexError | attributeError
-  | aascv (n : Nat) | binasciiError | unicodeDecodeError | unknownClass
+  | aascv (n : Nat) | binasciiError | unicodeDecodeError | recursionError | xmlSyntaxError | unknownClass
 deriving DecidableEq, Repr
 
 /-- class names under which an `except` clause catches the exception (own class and modelled base classes) -/
@@ -34,6 +34,8 @@ def PyExc.classes : PyExc → List String
   | .aascv _ => ["AASConstraintViolation"]
   | .binasciiError => ["Error", "ValueError"]          -- binascii.Error(ValueError)
   | .unicodeDecodeError => ["UnicodeDecodeError", "UnicodeError", "ValueError"]
+  | .recursionError => ["RecursionError", "RuntimeError"]
+  | .xmlSyntaxError => ["XMLSyntaxError", "ParseError", "LxmlSyntaxError", "LxmlError", "SyntaxError"]   -- lxml.etree
   | .unknownClass => []
 
 def PyExc.isA (e : PyExc) (cls : String) : Bool :=
@@ -175,6 +177,7 @@ deriving Repr
 
 inductive Body where
   | absent | malformed | array
+  | tooDeep                    -- nested deeper than the parser follows (json: RecursionError, lxml: "Excessive depth")
   | ok (p : Payload)
 deriving Repr
 
@@ -645,6 +648,7 @@ def requestBody (fn : String) (r : Req) : Res Payload :=
         if p.matchesExpect (Expect.ofName tname) then .ok (if stripMode mode r then p.strip else p)
         else if r.ctype = .json then raiseOf "assert_type" 0 else catching dec (.py .keyError)
       | .array => if r.ctype = .json then raiseOf "json_list" 1 else catching dec (.py .valueError)
+      | .tooDeep => if r.ctype = .json then catching dec (.py .recursionError) else catching dec (.py .xmlSyntaxError)
       | _ => catching dec (.py .valueError)
 
 /-! ## paging, responses -/
